@@ -8,8 +8,13 @@ import sys
 HERE = os.path.dirname(os.path.dirname(os.path.abspath(__file__)))
 sys.path.insert(0, HERE)
 ids = [json.loads(l)["id"] for l in open(os.path.join(HERE, "properties.jsonl"))]
+# properties whose check the coordinator has validated on the unchanged tree (seeds 0..4)
+claimed = set(open(os.path.join(HERE, "tools", "claimed.txt")).read().split())
 checks, na = [], []
 for pid in ids:
+    if pid not in claimed:
+        na.append({"property_id": pid, "reason": "check under construction, not yet validated on the unchanged tree (DESIGN.md section 4 plans a Lean model + proof for it; nothing makes the technique inapplicable)"})
+        continue
     try:
         mod = importlib.import_module("harness." + pid.lower())
         m = mod.MANIFEST
